@@ -80,16 +80,20 @@ pub enum Ev {
     /// packet received and the timeout flag latched too (SX126x datasheet 15.3: the timer is not
     /// stopped by RxDone in implicit-header mode); TX: TxDone and the timeout together
     TimeoutDone,
+    /// a clean reception (the chip behaves exactly as for `Done`) of a packet that does not fit the
+    /// buffer the caller hands to rx / complete_rx: the packet cannot be handed over, the operation
+    /// may only fail (or deliver no more than the buffer holds)
+    DoneShortBuf,
 }
-pub const ALL_EVS: [Ev; 12] = [Ev::Done, Ev::DoneDetected, Ev::Timeout, Ev::CrcError, Ev::HeaderError, Ev::Preamble, Ev::Spurious, Ev::HeaderValid, Ev::PreambleTimeout, Ev::HeaderValidTimeout, Ev::HeaderErrorTimeout, Ev::TimeoutDone];
+pub const ALL_EVS: [Ev; 13] = [Ev::Done, Ev::DoneDetected, Ev::Timeout, Ev::CrcError, Ev::HeaderError, Ev::Preamble, Ev::Spurious, Ev::HeaderValid, Ev::PreambleTimeout, Ev::HeaderValidTimeout, Ev::HeaderErrorTimeout, Ev::TimeoutDone, Ev::DoneShortBuf];
 impl Ev {
     /// the set contains a failure the operation may report (timeout, CRC error, header error)
     pub fn has_error(self) -> bool {
-        matches!(self, Ev::Timeout | Ev::CrcError | Ev::HeaderError | Ev::PreambleTimeout | Ev::HeaderValidTimeout | Ev::HeaderErrorTimeout | Ev::TimeoutDone)
+        matches!(self, Ev::Timeout | Ev::CrcError | Ev::HeaderError | Ev::PreambleTimeout | Ev::HeaderValidTimeout | Ev::HeaderErrorTimeout | Ev::TimeoutDone | Ev::DoneShortBuf)
     }
     /// the set contains a completion (packet received / CAD done / TX done)
     pub fn has_done(self) -> bool {
-        matches!(self, Ev::Done | Ev::DoneDetected | Ev::CrcError | Ev::TimeoutDone)
+        matches!(self, Ev::Done | Ev::DoneDetected | Ev::CrcError | Ev::TimeoutDone | Ev::DoneShortBuf)
     }
     /// the set contains a timeout: the chip has left the operation by itself
     pub fn has_timeout(self) -> bool {
@@ -103,6 +107,7 @@ impl Ev {
             Ev::HeaderErrorTimeout => "header-error+timeout",
             Ev::TimeoutDone => "timeout+done",
             Ev::Done => "done",
+            Ev::DoneShortBuf => "done-short-buffer",
             Ev::DoneDetected => "done-detected",
             Ev::Timeout => "timeout",
             Ev::CrcError => "crc-error",
@@ -412,6 +417,8 @@ struct Interp<RK: RadioKind> {
 
 const DUTY: DutyCycleParams = DutyCycleParams { rx_time: 640, sleep_time: 6400 };
 
+/// caller's buffer for the `done-short-buffer` outcome (the packets of `rx_payload_for` have 5 octets)
+const SHORT_RX_BUF: usize = 3;
 fn rx_payload_for(i: usize) -> Vec<u8> {
     vec![0xA0u8.wrapping_add(i as u8), 0x11, 0x22, 0x33, i as u8]
 }
@@ -498,11 +505,14 @@ impl<RK: RadioKind> Interp<RK> {
                         Ok(p) => p,
                         Err(e) => return Res::Err(format!("create_rx_packet_params: {e:?}")),
                     };
-                    let mut buf = [0u8; 255];
-                    let p = if matches!(op, Op::Rx { .. }) { poll_once(lora.rx(&pp, &mut buf)) } else { poll_once(lora.complete_rx(&pp, &mut buf)) };
+                    let mut full = [0u8; 255];
+                    // `done-short-buffer`: the caller's buffer is shorter than the packet the chip holds
+                    let short = op.irq().iter().any(|e| *e == Ev::DoneShortBuf);
+                    let buf = if short { &mut full[..SHORT_RX_BUF] } else { &mut full[..] };
+                    let p = if matches!(op, Op::Rx { .. }) { poll_once(lora.rx(&pp, buf)) } else { poll_once(lora.complete_rx(&pp, buf)) };
                     match p {
                         Poll::Pending => Res::Pending,
-                        Poll::Ready(Ok((len, _))) => Res::OkRx(buf[..len as usize].to_vec()),
+                        Poll::Ready(Ok((len, _))) => Res::OkRx(buf[..(len as usize).min(buf.len())].to_vec()),
                         Poll::Ready(Err(e)) => Res::Err(format!("{e:?}")),
                     }
                 }
@@ -553,7 +563,7 @@ impl<RK: RadioKind> Interp<RK> {
             w.op_inter = 0;
             w.irq_waits = 0;
             w.blocked = false;
-            w.script = op.irq().iter().map(|e| e.name().to_string()).collect();
+            w.script = op.irq().iter().map(|e| if *e == Ev::DoneShortBuf { Ev::Done.name().to_string() } else { e.name().to_string() }).collect();
             w.rx_payload = rx_payload_for(idx);
             if let Chip::C126(c) = &mut w.chip {
                 if let crate::chip126x::Mode126::RxDuty { .. } = c.mode {
@@ -707,7 +717,7 @@ impl<RK: RadioKind> Interp<RK> {
             (_, Op::StartRx) => {}
             (Res::OkRx(bytes), Op::Rx { .. } | Op::CompleteRx { .. }) => {
                 // (a packet that a bare wait_for_irq let in earlier carries that step's payload)
-                if leftover == 0 && !self.carried_done && !self.carried_error && op.irq().iter().any(|e| matches!(e, Ev::Done | Ev::CrcError | Ev::TimeoutDone)) && *bytes != rx_payload_for(idx) {
+                if leftover == 0 && !self.carried_done && !self.carried_error && op.irq().iter().any(|e| matches!(e, Ev::Done | Ev::CrcError | Ev::TimeoutDone)) && !op.irq().iter().any(|e| *e == Ev::DoneShortBuf) && *bytes != rx_payload_for(idx) {
                     return Err(self.viol(case, st, "clean-result", format!("rx-payload/{name}"), format!("{name} returned {} but the chip received {}", hex(bytes), hex(&rx_payload_for(idx)))));
                 }
             }
@@ -1058,6 +1068,7 @@ pub fn alphabet(board: Board) -> Vec<Op> {
         Op::Rx { irq: vec![Ev::Timeout] },
         Op::Rx { irq: vec![Ev::CrcError] },
         Op::Rx { irq: vec![Ev::Preamble, Ev::Done] },
+        Op::Rx { irq: vec![Ev::DoneShortBuf] },
         Op::Rx { irq: vec![Ev::Spurious, Ev::Timeout] },
         Op::Rx { irq: vec![] },
         Op::Rx { irq: vec![Ev::Preamble] },
@@ -1240,7 +1251,7 @@ pub fn fault_enumeration_reinit(st: &mut Stats, env: &Env, board: Board, depth: 
 /// The interrupt outcomes a reception can show: single conditions and sets of flags latched
 /// together before the host reads the status once (see `Ev`).
 pub fn rx_outcomes(board: Board) -> Vec<Ev> {
-    let mut v = vec![Ev::Done, Ev::Timeout, Ev::CrcError, Ev::Preamble, Ev::HeaderValid, Ev::Spurious, Ev::PreambleTimeout, Ev::HeaderValidTimeout, Ev::TimeoutDone];
+    let mut v = vec![Ev::Done, Ev::Timeout, Ev::CrcError, Ev::Preamble, Ev::HeaderValid, Ev::Spurious, Ev::PreambleTimeout, Ev::HeaderValidTimeout, Ev::TimeoutDone, Ev::DoneShortBuf];
     if board.is_126x() {
         v.extend([Ev::HeaderError, Ev::HeaderErrorTimeout]);
     }
@@ -1338,7 +1349,7 @@ fn ev_script(terminal: Vec<Ev>) -> impl Strategy<Value = Vec<Ev>> {
 }
 
 fn fragment(is126: bool) -> impl Strategy<Value = Vec<Op>> {
-    let rx_terms = if is126 { vec![Ev::Done, Ev::Done, Ev::Timeout, Ev::CrcError, Ev::HeaderError, Ev::PreambleTimeout, Ev::HeaderValidTimeout, Ev::HeaderErrorTimeout, Ev::TimeoutDone] } else { vec![Ev::Done, Ev::Done, Ev::Timeout, Ev::CrcError, Ev::PreambleTimeout, Ev::HeaderValidTimeout, Ev::TimeoutDone] };
+    let rx_terms = if is126 { vec![Ev::Done, Ev::Done, Ev::DoneShortBuf, Ev::Timeout, Ev::CrcError, Ev::HeaderError, Ev::PreambleTimeout, Ev::HeaderValidTimeout, Ev::HeaderErrorTimeout, Ev::TimeoutDone] } else { vec![Ev::Done, Ev::Done, Ev::DoneShortBuf, Ev::Timeout, Ev::CrcError, Ev::PreambleTimeout, Ev::HeaderValidTimeout, Ev::TimeoutDone] };
     let modes: Vec<RxM> = if is126 { vec![RxM::Single(5), RxM::Single(300), RxM::Continuous, RxM::Duty] } else { vec![RxM::Single(5), RxM::Single(300), RxM::Continuous] };
     let rxs = ev_script(rx_terms.clone());
     let rxs2 = ev_script(rx_terms);
